@@ -64,3 +64,9 @@ SPECS["C11"] = dict(level="exploration", assumptions=SCHED_ASSUME + ["the client
     min_relevant={"quick": 300, "thorough": 3000},
     rule="seeded stream scripts: flow control max_outstanding_messages in {1,2,3,10,1000,default} x max_outstanding_bytes in {default,30,50,120,300} x message size mixes; actions {stream ack, stream nack (zero deadline), stream deadline extension, external Acknowledge, publish} with random virtual delays at the stream's transaction boundaries and sends. Monitors: outstanding-count / byte ledger evaluated synchronously at every Send; at quiescence after every capacity-freeing action, 'free slot + fitting deliverable message => it was sent'. Non-trivial = the stream reached its message limit at least once; distinct = distinct (limits, sizes, action script).",
     parts=[dict(name="flow", binary="rigv", pkg="rigv", test="TestC11", race=True, shards={"quick": 16, "thorough": 16})])
+
+SPECS["C12"] = dict(level="exploration", assumptions=HIST_ASSUME[:2] + ["'exactly that project' is decided by byte-wise string prefix in the reference, so SQL LIKE semantics of the implementation are on trial", "racing creators are interleaved at transaction boundaries only (SQLite immediate transactions)"],
+    min_relevant={"quick": 2000, "thorough": 20000},
+    rule="seeded histories of 40-130 create / delete / re-create / get / publish / pull / list operations over topics, subscriptions and snapshots in projects and ids that differ by case, prefix and LIKE wildcards (p, P, pq, p_, p%, unicode, blank), every List walked to exhaustion with page sizes {1,2,3,7,100,0,-1} and compared as a multiset with the model's live set of exactly that project; re-created subscriptions are checked for inherited labels/filter/ordering/backlog; plus groups of 2-4 racing creators of one name (topic, subscription, snapshot) under -race. Non-trivial = history with more than 10 answered operations; distinct = distinct operation/answer trace.",
+    parts=[dict(name="names", binary="rigv", pkg="rigv", test="TestC12", shards={"quick": 16, "thorough": 16}),
+           dict(name="race", binary="rigv", pkg="rigv", test="TestC12race", race=True, shards={"quick": 8, "thorough": 16})])
